@@ -42,7 +42,7 @@ def register(reg):
     @reg.contract
     class MergeHeaders(Contract):
         key = MOD + "merge_headers"
-        props = ("C11",)
+        props = ("C11", "C19", "C03")
         suspends = False
         variants = [
             ("both", {"default_headers": "seq:hdr", "override_headers": "seq:hdr"}),
@@ -60,7 +60,8 @@ def register(reg):
 
         def ensures(self, c):
             r = c.eng.coerce(c.st, c.result, "seq:hdr").t
-            return [("override_wins_case_insensitively_defaults_first", ("C11",), r == self.spec(c))]
+            # C19: "header lists keep order and duplicates"
+            return [("override_wins_case_insensitively_defaults_first", ("C11", "C19", "C03"), r == self.spec(c))]
 
         def apply(self, it, st, self_v, args, kwargs, node):
             eng = it.eng
